@@ -67,3 +67,11 @@ Proof.
       (src_is_pointer_aligned_to_ok n d en Hp Hn)))).
 Qed.
 Print Assumptions C04_source_rounding.
+
+Theorem C04_source_fast_path : forall m e0 start ptr l,
+  pow2 m -> pow2 (l_align l) -> m < W -> l_align l < W -> ptr < W -> start <= ptr ->
+  l_size l + (l_align l - 1) < W ->
+  call_fn src_fns (List.app (self_chunk start ptr) (cenv m)) "try_alloc_layout_fast" [vlayout l]
+  = Ret (vopt (fast_ptr (actual m e0) start ptr l)).
+Proof. exact src_try_alloc_layout_fast_ok. Qed.
+Print Assumptions C04_source_fast_path.
